@@ -43,7 +43,6 @@ class Immutable:
 
         temp = []
         for k, v in kwargs.items():
-            temp.append(type(v))
             temp.append(v)
             super().__setattr__(k, v)
         super().__setattr__('_hash', hash(tuple(temp)))
@@ -110,7 +109,7 @@ class ImmutableDict(Mapping[Any, Any]):
 
         self._validate(arg)
         self._d = dict(arg)
-        self._hash = hash(tuple([(type(x), x, type(y), y) for x, y in sorted(self._d.items())]))
+        self._hash = hash(tuple(sorted(self._d.items())))
 
     def _validate(self, arg: dict[Any, Any] | Iterable[tuple[Any, Any]]) -> None:
         """Validate arguments."""
